@@ -86,6 +86,17 @@ def handle (t : Array String) : String :=
         let (l, p1) := flist t (p+1); let (d, p2) := flist t p1; let (u, _) := flist t p2
         some (triples l d u) else none
     bpAnswer (bpStatic v r rho0 (species nl kT q) fg ldu)
+  | "bpstatictol" =>
+    -- like bpstatic but with an explicit tolerance as token 2 (borderline re-checks of the BLAS norm)
+    let v := if t[1]! == "onaxis" then Variant.onaxis else Variant.linear
+    let tol := fb t[2]!
+    let (r, p) := flist t 3; let (rho0, p) := flist t p
+    let (nl, p) := flist t p; let (kT, p) := flist t p; let (q, _) := flist t p
+    let b0 := poissonRhs rho0
+    let ldu := fdNonuniform r
+    let phi0 := solve (withRhs ldu b0)
+    let I : BPIn Float := { variant := v, r, ldu, b0, cden := [], e_kin := 0, sp := species nl kT q }
+    bpAnswer (finish (Radial.loop I tol 500 phi0 0 none))
   | "bpebeam" =>
     -- bpebeam current r_e e_kin relDiff maxStep r nl kT q hasFg [fg] hasLdu [l d u]
     let cur := fb t[1]!; let r_e := fb t[2]!; let e_kin := fb t[3]!; let rd := fb t[4]!
@@ -164,6 +175,17 @@ def handle (t : Array String) : String :=
       let a : Option Float := if t[p]! == "1" then some (fb t[p+1]!) else none
       (match elementHead id a with
         | some (z, a', ip) => "ok " ++ toString z ++ " " ++ pb a' ++ " " ++ pb ip
+        | none => "ValueError")
+    | (none, _) => "bad-op"
+  | "eget" =>
+    -- eget <ident> hasN [n…] hasKT [kT…]
+    match parseIdent t 1 with
+    | (some id, p) =>
+      let (n, p) := if t[p]! == "1" then let (v, p') := flist t (p+1); (some v, p') else (none, p+1)
+      let (k, _) := if t[p]! == "1" then let (v, p') := flist t (p+1); (some v, p') else (none, p+1)
+      (match elementGetNK id n k with
+        | some (n', k') => "ok " ++ (match n' with | some v => "1 " ++ toString v.length ++ " " ++ pr v | none => "0") ++ " "
+            ++ (match k' with | some v => "1 " ++ toString v.length ++ " " ++ pr v | none => "0")
         | none => "ValueError")
     | (none, _) => "bad-op"
   | "gas" =>
